@@ -72,8 +72,9 @@ Proof.
   { intros H. inversion H. assert ((length v <? 8)%nat = true) as -> by lia.
     rewrite orb_false_r. reflexivity. }
   destruct (lenN v <? 4 + u16_at 2 v) eqn:Hfit; [discriminate|].
-  set (len := u16_at 2 v) in *. set (next := skipn (4 + N.to_nat len) v).
-  assert (length next = (length v - (4 + N.to_nat len))%nat) as Hnext by apply skipn_length.
+  unfold pad4.
+  set (len := u16_at 2 v) in *. set (next := skipn (4 + N.to_nat ((len + 3) / 4 * 4)) v).
+  assert (length next = (length v - (4 + N.to_nat ((len + 3) / 4 * 4)))%nat) as Hnext by apply skipn_length.
   unfold lenN in Hfit.
   destruct (length v <? 8)%nat eqn:H8.
   - (* too short to hold a CHANGE-REQUEST: the model cannot find one either *)
